@@ -83,6 +83,8 @@ def clock_of(disease):
     try:
         t, st = disease.t, disease.sim.t
         same = float(t.dt) == float(st.dt) and str(t.unit) == str(st.unit)
+        if same:    # same step, but a later start / earlier stop shifts the module's index against the simulation's
+            same = np.array_equal(np.asarray(t.yearvec, dtype=float), np.asarray(st.yearvec, dtype=float))
     except Exception:
         same = True
     return 'inherited' if same else 'own-timestep'
@@ -119,6 +121,8 @@ def make_disease(d):
         sir / sis pass a fixed list of keywords, so the two timeline keywords are added here (impl.py is shared, not edited) """
     import starsim as ss
     d = dict(d)
+    if hasattr(impl, '_own_time'):      # impl._disease passes the module's own dt / unit / start / stop through by now
+        return impl._disease(d)
     own = {k: d.pop(k) for k in ('dt', 'unit') if k in d}
     if not own:
         return impl._disease(d)
